@@ -98,3 +98,20 @@ package cargo
 //@ func convertWildcardToStandardConstraint
 //@   ensures xor: (result0 != nil) == (result1 == nil)
 //@   ensures bound: result1 == nil ==> result0.version != nil
+
+// ---- shorthand operators (C05): caret and tilde denote [base, next incompatible version); precision is the number
+// of components that were written (^0.0 has 2, ^0 has 1)
+// lexicographic "<" on (major, minor, patch): membership below the upper bound X.Y.Z-0
+//@ spec below(v *Version, ma int, mi int, pa int) bool = v.major < ma || (v.major == ma && (v.minor < mi || (v.minor == mi && v.patch < pa)))
+
+// parsed components are never negative
+//@ spec nn(v *Version) bool = v.major >= 0 && v.minor >= 0 && v.patch >= 0
+
+//@ func satisfiesCaretConstraint
+//@   ensures caret-major: nn(version) && nn(constraint) && (constraint.major > 0 || precision == 1) && constraint.major < 9223372036854775807 ==> result == (version.Compare(constraint) >= 0 && below(version, constraint.major + 1, 0, 0))   [C05]
+//@   ensures caret-minor: nn(version) && nn(constraint) && constraint.major == 0 && precision != 1 && (constraint.minor > 0 || precision == 2) && constraint.minor < 9223372036854775807 ==> result == (version.Compare(constraint) >= 0 && below(version, 0, constraint.minor + 1, 0))   [C05]
+//@   ensures caret-patch: nn(version) && nn(constraint) && constraint.major == 0 && constraint.minor == 0 && precision != 1 && precision != 2 && constraint.patch >= 0 && constraint.patch < 9223372036854775807 ==> result == (version.Compare(constraint) >= 0 && below(version, 0, 0, constraint.patch + 1))   [C05]
+
+//@ func satisfiesTildeConstraint
+//@   ensures tilde-major: nn(version) && nn(constraint) && precision == 1 && constraint.major >= 0 && constraint.major < 9223372036854775807 ==> result == (version.Compare(constraint) >= 0 && below(version, constraint.major + 1, 0, 0))   [C05]
+//@   ensures tilde-minor: nn(version) && nn(constraint) && precision != 1 && constraint.minor >= 0 && constraint.minor < 9223372036854775807 ==> result == (version.Compare(constraint) >= 0 && below(version, constraint.major, constraint.minor + 1, 0))   [C05]
